@@ -88,9 +88,10 @@ PROPS["C12"] = dict(
     tests=[REGRESS(),
            T("TestExhaustivePrefix", (8, 0), (8, 0), env={"VERIF_SHARDS": "8"}),
            T("TestClassifyRandom", (4, 20000), (8, 300000)),
-           T("TestClassifyDeepEqual", (2, 10000), (4, 200000))],
+           T("TestClassifyDeepEqual", (2, 10000), (4, 200000)),
+           T("TestClassifyHistory", (2, 8000), (4, 150000))],
     fuzz=[dict(name="FuzzClassify", time="120s")],
-    rule="registration lists of HandleErrors/HandleErrorTypes/HandleResult/HandleIf (and AbortOn*/CancelOn*) x outcomes (values 0..3 x 20 errors: nil, sentinels, wrapped once/twice, joined, value- and pointer-receiver types bare/wrapped/joined, marker interface, custom Is, nil Unwrap, unrelated), each evaluated through a fallback, a retry policy, a breaker (execution and RecordResult/RecordError), retry abort conditions and hedge cancel conditions; lists of length 0..2 over a 22-condition alphabet are enumerated exhaustively against all 80 outcomes, longer lists (up to 5) are drawn at random; non-trivial = at least 2 registration kinds of which one matches and one does not, or an error nested at least two levels with some registration; distinct = the case itself. TestClassifyDeepEqual: policies over R = any with HandleResult / AbortOnResult values of 14 shapes (int, int64, string, pointers to structs, slices, a map, structs holding pointers, a typed nil pointer, nil, a struct value, an array), the outcome built separately from the registered value (equal contents, distinct instances) or the same instance, through fallback, retry, abort and breaker carriers against reflect.DeepEqual; non-trivial = a match between distinct instances of a pointer / slice / map / struct value",
+    rule="registration lists of HandleErrors/HandleErrorTypes/HandleResult/HandleIf (and AbortOn*/CancelOn*) x outcomes (values 0..3 x 20 errors: nil, sentinels, wrapped once/twice, joined, value- and pointer-receiver types bare/wrapped/joined, marker interface, custom Is, nil Unwrap, unrelated), each evaluated through a fallback, a retry policy, a breaker (execution and RecordResult/RecordError), retry abort conditions and hedge cancel conditions; lists of length 0..2 over a 22-condition alphabet are enumerated exhaustively against all 80 outcomes, longer lists (up to 5) are drawn at random; non-trivial = at least 2 registration kinds of which one matches and one does not, or an error nested at least two levels with some registration; distinct = the case itself. TestClassifyDeepEqual: policies over R = any with HandleResult / AbortOnResult values of 14 shapes (int, int64, string, pointers to structs, slices, a map, structs holding pointers, a typed nil pointer, nil, a struct value, an array), the outcome built separately from the registered value (equal contents, distinct instances) or the same instance, through fallback, retry, abort and breaker carriers against reflect.DeepEqual; non-trivial = a match between distinct instances of a pointer / slice / map / struct value. TestClassifyHistory: one policy instance per carrier classifies a sequence of 2..8 outcomes; each verdict is the rule applied to that outcome alone; non-trivial = the sequence contains failures and non-failures",
     assumptions=["result conditions of abort/cancel lists on outcomes that carry an error are not checked (documentation silent, DESIGN.md L5; counted)",
                  "results are comparable ints except in TestClassifyDeepEqual; predicates come from a named finite family evaluated identically by the oracle"],
 )
